@@ -714,7 +714,7 @@ def same(o, e):
 def gen_sessions(ctx):
     """TLC simulates sessions; one line per session (with every successor of the last but one state: a few per trace
     are kept)"""
-    res = ctx.tlc('Gen_ParserSession', 'Gen_ParserSession.cfg', leg='GEN', workers=2, simulate='num=%d' % ctx.pick(30, 250),
+    res = ctx.tlc('Gen_ParserSession', 'Gen_ParserSession.cfg', leg='GEN', workers=2, simulate='num=%d' % ctx.pick(20, 250),
                   depth=8, seed=ctx.seed, timeout=ctx.pick(300, 1500), jvm=JVM)
     if res.violated:
         raise core.MachineryError('generator Gen_ParserSession.cfg: %s' % res.violated)
@@ -817,7 +817,7 @@ def sessions_c2s(ctx, parsers, cases, nsess):
     rng = random.Random(ctx.seed + 13)
     pools = {}
     for c in cases:
-        if c['ok'] and len(c['tokens']) <= 30 and c['fam'] in ('spine', 'stmt', 'lit', 'corner', 'matrix'):
+        if c['ok'] and len(c['tokens']) <= ctx.pick(24, 40) and c['fam'] in ('spine', 'stmt', 'lit', 'corner', 'matrix'):
             pools.setdefault(ph_kind(c['tokens']), []).append(c)
     rejected = [c for c in cases if not c['ok'] and 2 <= len(c['tokens']) <= 20 and c['fam'] in ('without', 'chain', 'corner')]
     for k in pools:
@@ -926,13 +926,17 @@ def sessions_c2s(ctx, parsers, cases, nsess):
 def run(ctx):
     ctx.rule = ('one evaluation = one text parsed by both parsers and compared with the specification; distinct = distinct '
                 'token sequences emitted by TLC (spines in every expression slot, clause combinations, literal forms, chains, '
-                'corner cases); non-trivial = more than two tokens')
+                'corner cases); non-trivial = more than two tokens; plus one evaluation per parse result of a session (a call '
+                'sequence over byte-identical texts on several connections of one process), distinct = distinct sessions')
     ctx.assumptions += [
         'expressible trees only: postfix operators on primaries, sub-SELECT operands of . and [] left out, list literals '
         'without NULL elements (the runtime drops NULL elements except the first: observed, not judged)',
         'identifiers exclude the 23 reserved words and, in generated trees, the soft keywords OPEN CLOSE CLEAR ON AT '
         'BETWEEN NULL; ASCII layout; integers below 2^31',
         'token sequences on which the scannerless parser may cut a token in two (Unmodelled in Parser.tla) are skipped and counted',
+        'sessions: executions are given as many parameters as the text has placeholders; their outcome is history, not judged; '
+        'trees are held and re-examined only when the later calls were given texts (executing a tree object numbers that very '
+        'object, as shipped); at most 9 calls per session',
         'TLC 1.8, Json / IOUtils community modules, TatSu 5.7.4, CPython 3.12; harness/bqlast.py (projection and layout)']
     only = ctx.only_legs
     # ---- MC (in a thread of its own: TLC and the parsing processes share the cores)
@@ -1011,7 +1015,7 @@ def run(ctx):
         mc_thread = mcs_thread = None
         if not only or 'C2S' in only:
             scale = float(os.environ.get('VERIF_C06_C2S_SCALE', 1))       # development only
-            finish_sessions = sessions_c2s(ctx, parsers, cases, max(4, int(ctx.pick(100, 900) * scale)))
+            finish_sessions = sessions_c2s(ctx, parsers, cases, max(4, int(ctx.pick(80, 900) * scale)))
             try:
                 c2s(ctx, parsers, cases, int(ctx.pick(2500, 16000) * scale), int(ctx.pick(1000, 6000) * scale))
             finally:
